@@ -43,7 +43,9 @@ class Evaluator:
             callees = self.prog.lambda_fns(fn, target)
             args = list(n['opargs'][1:])
         elif n.get('op'):
-            return None
+            # overloaded operator written as a free function in the repository (e.g. QXmpp::operator&(SceMode, SceMode))
+            callees = [g for g in self.prog.callee_fns(fn, n) if len(g.params) == len(n.get('opargs', []))]
+            args = list(n.get('opargs', []))
         else:
             callees = self.prog.callee_fns(fn, n)
         if len(callees) != 1:
@@ -155,13 +157,13 @@ class Evaluator:
                 if a is None or b is None:
                     return None
                 return {'<': a < b, '<=': a <= b, '>': a > b, '>=': a >= b}[op]
-            if op != '()':
+            if op != '()' and not (k == 'call' and n.get('op') and (n.get('t') or '') == 'bool' and op not in ('&&', '||', '==', '!=', '<', '<=', '>', '>=')):
                 return None
         if k in ('call', 'construct'):
             cn = fn.cname(n)
             if cn in self.b:
                 return self.b[cn]
-            if k == 'call' and (not n.get('op') or n.get('op') == '()'):
+            if k == 'call' and (not n.get('op') or n.get('op') == '()' or ((n.get('t') or '') == 'bool' and len(n.get('opargs', [])) == 2)):
                 return self._ev_helper(n, state, depth)
             return None
         if k == 'var':
